@@ -195,3 +195,54 @@ Definition C10_unsaveable (bits : N) (impl_refused : bool) : bool * bool * N :=
                        | Some _ => false
                        end in
   (Bool.eqb model_refused impl_refused, negb impl_refused, if is_nan bits then 1 else 0).
+
+(* ---------------------------------------------------------------- module table on reload
+   DeserializeParams holds name ↦ module.  `default()` fills it with the built-in modules, every `add_module`
+   call is a HashMap::insert (the later one wins, also over a built-in of the same name: "If the same module has
+   already been added, it will be replaced by this one"), and deserialize_modules resolves each saved module
+   name in that table (unknown name = error).  An implementation is identified by a number: 0 = built-in,
+   n > 0 = the n-th module supplied by the user. *)
+Definition mod_table := list (bytes * N).
+
+Fixpoint mod_lookup (n : bytes) (t : mod_table) : option N :=
+  match t with
+  | [] => None
+  | (m, i) :: r => if bytes_eqb n m then Some i else mod_lookup n r
+  end.
+
+Definition default_params (builtins : list bytes) : mod_table := map (fun n => (n, 0)) builtins.
+
+(* the table after default() and the user's add_module calls in order: each insert shadows what was there *)
+Definition deserialize_params (builtins : list bytes) (user : list (bytes * N)) : mod_table :=
+  (rev user ++ default_params builtins)%list.
+
+Fixpoint resolve_modules (t : mod_table) (names : list bytes) : option (list N) :=
+  match names with
+  | [] => Some []
+  | n :: r => match mod_lookup n t, resolve_modules t r with
+              | Some i, Some l => Some (i :: l)
+              | _, _ => None
+              end
+  end.
+
+(* file … same: as C10_case.  builtins: names of the built-in modules; user: the modules given to add_module on
+   reload (name, id > 0); observed: for each of them, whether the reloaded scanner behaves as the user's
+   implementation (its probe rule matched).  The saved module names are read off the decoded file. *)
+Definition C10_case_mods (file : bytes) (listing : list listing_entry) (prm : bool * N * N * bool) (nvars : N)
+           (impl_same : bool) (builtins : list bytes) (user : list (bytes * N)) (observed : list (bytes * bool))
+  : bool * bool * N :=
+  match C10_case file listing prm nvars impl_same with
+  | (c1, s1, k) =>
+      let table := deserialize_params builtins user in
+      let names := match from_bytes_model case_fuel file with
+                   | Some (v, _) => map vbytes (vseq (oget (path ["inner"%string; "modules"%string] v)))
+                   | None => []
+                   end in
+      let c2 := match resolve_modules table names with Some _ => true | None => false end
+                && forallb (fun o => match mod_lookup (fst o) table with
+                                     | Some i => Bool.eqb (snd o) (0 <? i)
+                                     | None => false
+                                     end) observed in
+      let s2 := forallb (fun o => snd o) observed in
+      (c1 && c2, s1 && s2, k)
+  end.
